@@ -1281,6 +1281,8 @@ def badsweep_correspond(ctx, c):
     """NaN / str / None in every numeric argument position of every constructor of every installed unit
     class: must raise; a violation is a definition that WAS emitted and contains NaN or a non-wire input."""
     res = ctx.impl('c02_badsweep', {'kinds': ['nan', 'str', 'none'], 'shard': 0, 'nshards': 1}, timeout=900)
+    if res.get('crash'):
+        c.failures.append(Failure('correspondence', 'the sweep script itself failed (harness error, not a verdict): ' + res['crash']))
     for k_, v in res['stats'].items():
         c.count('sweep:' + k_, v)
     seen = set()
